@@ -411,6 +411,9 @@ func cmdRun(args []string) {
 	if err := os.WriteFile(filepath.Join(verifRoot, "evidence", id+".json"), b, 0o644); err != nil {
 		die2("cannot write evidence: %v", err)
 	}
+	// a copy per tier and seed, so that a later run of the other tier does not erase this one
+	os.MkdirAll(filepath.Join(verifRoot, "evidence", "runs"), 0o755)
+	os.WriteFile(filepath.Join(verifRoot, "evidence", "runs", fmt.Sprintf("%s.%s.seed%d.json", id, *tier, seed)), b, 0o644)
 	fmt.Printf("%s tier=%s seed=%d runs=%d distinct_nontrivial=%d steps=%d sim_time=%.0fs wall=%.1fs (build %.1fs)\n", id, *tier, seed, total.Runs, len(distinct), total.Steps, float64(total.SimNS)/1e9, wall, buildS)
 	for _, l := range knownLines {
 		fmt.Println(l)
